@@ -256,6 +256,9 @@ def local_term(fl, l, depth):
             return at
     if 1 <= l <= b.argc and not ds:
         return ('param', l, b.local_name(l))
+    if len(ds) > 1 and all(d[2] == 'assign' and not d[4] and d[3] == ds[0][3] for d in ds) and ds[0][2] == 'assign':
+        # the same statement in several blocks (a block duplicated by jump threading): one value
+        ds = ds[:1]
     if len(ds) != 1:
         return ('phi', l) if ds else ('undef', l)
     bb, idx, kind, data, dproj = ds[0]
